@@ -29,6 +29,7 @@ import (
 	"github.com/go-openapi/runtime/middleware"
 	"github.com/go-openapi/runtime/middleware/untyped"
 	"github.com/go-openapi/runtime/security"
+	"github.com/go-openapi/runtime/yamlpc"
 	"github.com/go-openapi/strfmt"
 	"github.com/go-openapi/swag"
 
@@ -131,6 +132,7 @@ const (
 	mtBytes = "application/octet-stream"
 	mtForm  = "application/x-www-form-urlencoded"
 	mtMulti = "multipart/form-data"
+	mtYAML  = "application/x-yaml"
 )
 
 type m = map[string]interface{}
@@ -141,9 +143,13 @@ func (o Op) consumes() string {
 		return mtForm
 	case "multipart":
 		return mtMulti
+	case "yaml":
+		return mtYAML
 	}
 	return mtJSON
 }
+
+func (o Op) hasBody() bool { return o.Payload == "json" || o.Payload == "yaml" }
 
 func (c Case) spec() m {
 	paths := m{}
@@ -180,7 +186,7 @@ func (c Case) spec() m {
 			}
 			ps = append(ps, p)
 		}
-		if o.Payload == "json" {
+		if o.hasBody() {
 			schema := m{"type": "object"}
 			if o.BodyType == "array" {
 				// no "items": go-openapi/validate rejects a JSON number against the empty schema {} when it is handed
@@ -403,6 +409,7 @@ func Check(c Case) *kit.Violation {
 		api := untyped.NewAPI(doc)
 		api.RegisterConsumer(mtForm, runtime.DiscardConsumer)
 		api.RegisterConsumer(mtMulti, runtime.DiscardConsumer)
+		api.RegisterConsumer(mtYAML, yamlpc.YAMLConsumer())
 		api.RegisterProducer(mtText, runtime.TextProducer())
 		api.RegisterProducer(mtBytes, runtime.ByteStreamProducer())
 		for i := range c.Ops {
@@ -527,9 +534,12 @@ func submit(rt *client.Runtime, w *wire, oi int, op Op, call *Call, o *obs, wher
 		return kit.Failf("HARNESS: undecodable result in the case: %v", derr)
 	}
 	var body interface{}
-	if op.Payload == "json" {
+	if op.hasBody() {
 		if body, derr = decodeJSON(call.Body); derr != nil {
 			return kit.Failf("HARNESS: undecodable body in the case: %v", derr)
+		}
+		if op.Payload == "yaml" {
+			body = plainNumbers(body) // a YAML document has no json.Number: integers and floats travel as such
 		}
 	}
 	cop := &runtime.ClientOperation{
@@ -562,7 +572,7 @@ func submit(rt *client.Runtime, w *wire, oi int, op Op, call *Call, o *obs, wher
 				return err
 			}
 		}
-		if op.Payload == "json" {
+		if op.hasBody() {
 			if err := req.SetBodyParam(body); err != nil {
 				return err
 			}
@@ -636,6 +646,11 @@ func submit(rt *client.Runtime, w *wire, oi int, op Op, call *Call, o *obs, wher
 	if op.Payload == "json" {
 		if got := o.got["body"]; !reflect.DeepEqual(got, body) {
 			return kit.Failf("BODY %s: supplied JSON %s, the handler got %#v", where, call.Body, got)
+		}
+	}
+	if op.Payload == "yaml" {
+		if got := plainNumbers(o.got["body"]); !reflect.DeepEqual(got, body) {
+			return kit.Failf("BODY %s: supplied (as YAML) %s, the handler got %#v", where, call.Body, o.got["body"])
 		}
 	}
 	for i, f := range op.FileFields {
@@ -715,6 +730,42 @@ func submit(rt *client.Runtime, w *wire, oi int, op Op, call *Call, o *obs, wher
 	return nil
 }
 
+// plainNumbers rewrites a decoded document so that numbers are int64 or float64 whatever decoder produced them
+// (json.Number from encoding/json, int/int64/uint64/float64 from yaml.v3) and empty containers compare equal.
+func plainNumbers(v interface{}) interface{} {
+	switch x := v.(type) {
+	case json.Number:
+		if i, err := strconv.ParseInt(string(x), 10, 64); err == nil {
+			return i
+		}
+		f, _ := strconv.ParseFloat(string(x), 64)
+		return f
+	case int:
+		return int64(x)
+	case uint64:
+		return int64(x)
+	case map[string]interface{}:
+		out := make(map[string]interface{}, len(x))
+		for k, e := range x {
+			out[k] = plainNumbers(e)
+		}
+		return out
+	case map[interface{}]interface{}:
+		out := make(map[string]interface{}, len(x))
+		for k, e := range x {
+			out[fmt.Sprint(k)] = plainNumbers(e)
+		}
+		return out
+	case []interface{}:
+		out := make([]interface{}, 0, len(x))
+		for _, e := range x {
+			out = append(out, plainNumbers(e))
+		}
+		return out
+	}
+	return v
+}
+
 func orNull(s string) string {
 	if s == "" {
 		return "null"
@@ -754,7 +805,7 @@ func describe(op Op, call *Call) string {
 	for i, d := range op.Decls {
 		fmt.Fprintf(&b, "%s %s=%#v; ", d.In, d.Name, d.want(call.Vals[i]))
 	}
-	if op.Payload == "json" {
+	if op.hasBody() {
 		fmt.Fprintf(&b, "body=%s; ", call.Body)
 	}
 	for i, f := range op.FileFields {
